@@ -142,10 +142,23 @@ def _diff(obs, exp):
 def _spec_reads(rep, printed_texts):
     """the module's parser (TLC) applied to everything the implementation printed"""
     uniq = sorted(set(printed_texts))
-    cases = [dict(id=f"p{i}", mode="text", text=drv.codes_of(t)) for i, t in enumerate(uniq)]
+    known = {}
+    cdir = os.environ.get("VT_TLC_CACHE")       # per-text answers kept between sensitivity runs
+    cfile = os.path.join(cdir, f"{PID}-{_spec_digest()}-reads.json") if cdir else None
+    if cfile and os.path.exists(cfile):
+        with open(cfile) as fh:
+            known = json.load(fh)
+    todo = [t for t in uniq if t not in known]
+    cases = [dict(id=f"p{i}", mode="text", text=drv.codes_of(t)) for i, t in enumerate(todo)]
     res, st = tlc.oracle("OracleRrelSyntax", cases)
     rep.add_oracle("OracleRrelSyntax[printed]", st)
-    return {t: res[f"p{i}"]["read"] for i, t in enumerate(uniq)}
+    for i, t in enumerate(todo):
+        known[t] = res[f"p{i}"]["read"]
+    if cfile and todo:
+        with open(cfile + ".tmp", "w") as fh:
+            json.dump(known, fh)
+        os.replace(cfile + ".tmp", cfile)
+    return {t: known[t] for t in uniq}
 
 
 # ------------------------------------------------------------------ seeded-random trees (I->S)
@@ -180,11 +193,32 @@ def _rand_seq(rng, depth):
     return [_rand_path(rng, depth) for _ in range(rng.choice([1, 1, 1, 2, 3]))]
 
 
+def _size(x):
+    """(nodes, bracket nesting) of a generated tree -- only to keep the real parser's running time bounded:
+    textx.scoping.rrel.parse has no memoization and re-parses each bracket ~8 times per nesting level."""
+    if isinstance(x, list):
+        rs = [_size(y) for y in x]
+        return sum(r[0] for r in rs), max([r[1] for r in rs] or [0])
+    if "els" in x:
+        return _size(x["els"])
+    if x["k"] == "br":
+        n, d = _size([p for p in x["seq"]])
+        return n + 1, d + 1
+    if x["k"] == "star":
+        n, d = _size(x["e"])
+        return n + 1, d
+    return 1, 0
+
+
 def _random_trees(rng, count):
     out = []
-    for i in range(count):
+    while len(out) < count:
         flags = rng.choice(["", "", "m", "p", "mp", "pm", "mm", "pp", "mpm"])
-        out.append(dict(id=f"r{i}", mode="ast", ast=dict(flags=drv.codes_of(flags), seq=_rand_seq(rng, rng.choice([1, 2, 3])))))
+        seq = _rand_seq(rng, rng.choice([0, 1, 1, 2, 2, 3]))
+        n, d = _size(seq)
+        if n > (24, 16, 12, 9)[d]:
+            continue
+        out.append(dict(id=f"r{len(out)}", mode="ast", ast=dict(flags=drv.codes_of(flags), seq=seq)))
     return out
 
 
@@ -261,6 +295,16 @@ def replay(path):
     print("evaluation same ", o["eval_same"])
     ok = o["p1"] == norm and o["p2"] == norm and _with_mp(res["p"]["read"]) == norm and o["eval_same"] is True
     return 0 if ok else 1
+
+
+def selftest():
+    """The module is not vacuous: each deviation clause of RrelSyntax breaks RoundTrip in the (M) model."""
+    bad = 0
+    for dev, thm in DEV_BREAKS.items():
+        r = tlc.model_check("MC_RrelSyntax", env=dict(VT_N=2, VT_SHARD=0, VT_NSHARDS=1, VT_DEV=dev), workers=1)
+        print(f"Dev={{{dev}}}: violated={r.violated} (expected {thm})")
+        bad += r.violated != thm
+    return 1 if bad else 0
 
 
 META = dict(
